@@ -93,6 +93,36 @@ func transClient(repo string, f *Facts) {
 	} else {
 		f.bad("translate Client.cancelQuery: not found")
 	}
+	// ---- packet: which read deadline is armed for one attempt (the statements before the deadline is set on the connection)
+	if fd := p.funcDecl("Client", "packet"); fd != nil && fd.Body != nil {
+		var head []ast.Stmt
+		for _, st := range fd.Body.List {
+			if is, ok := st.(*ast.IfStmt); ok && nodeText(is) == "if !deadline.IsZero()" {
+				break
+			}
+			head = append(head, st)
+		}
+		if len(head) == len(fd.Body.List) {
+			f.bad("translate Client.packet: `if !deadline.IsZero()` (where the deadline is armed) not found")
+		} else {
+			g := &glFunc{name: "Client.packet/deadline", f: f, state: "deadline", recv: "c", fallOff: "deadline",
+				exprs: map[string]string{
+					"c.readTimeout": "readTO", "time.Now().Add(timeout)": "(some (now + timeout))", "d": "(some d)",
+					"d.Before(deadline)": "(Model.Timing.before d deadline)", "deadline.IsZero()": "deadline.isNone",
+				},
+				stmts:      map[string]string{},
+				noops:      map[string]bool{},
+				tupleStmts: map[string][2]string{"var deadline": {"deadline", "(none : Option Nat)"}},
+				bindInits:  map[string][2]string{"d, ok := ctx.Deadline()": {"(d, ok)", "(ctxDeadline.getD 0, ctxDeadline.isSome)"}},
+			}
+			body := g.block(head, g.fallOff)
+			if !g.failed {
+				f.trans.WriteString("\n/-- `(*Client).packet`: the read deadline chosen for one attempt (`none`: no deadline is armed); `readTO = 0`: no read timeout -/\ndef packetDeadline (now readTO : Nat) (ctxDeadline : Option Nat) : Option Nat :=\n" + indent(body, "  ") + "\n")
+			}
+		}
+	} else {
+		f.bad("translate Client.packet: not found")
+	}
 	// ---- Do: the cancel-watch goroutine and the statements after g.Wait()
 	fd := p.funcDecl("Client", "Do")
 	if fd == nil || fd.Body == nil {
